@@ -27,7 +27,25 @@ class Roles(object):
     def __init__(self, P):
         self.P = P
         self.resolved = {}
+        self.errors = []
         S = self.S = P.cls('SyncObj')
+        for seg in (self._seg0, self._seg1, self._seg2, self._seg3, self._seg4, self._seg5, self._seg6, self._seg7, self._seg8, self._seg9):
+            before = set(self.__dict__)
+            try:
+                seg(P, S)
+            except AnalysisError as e:
+                self.errors.append(str(e))
+                # roles the failed segment left unset (None) must raise when a rule asks for them
+                for k in list(self.__dict__):
+                    if k not in before and self.__dict__[k] is None:
+                        del self.__dict__[k]
+
+    def _seg0(self, P, S):
+        init = self.__dict__.get('init')
+        sn = init.self_name if init is not None else None
+        tick = self.__dict__.get('tick')
+        h = self.__dict__.get('handler')
+        qd = self.__dict__.get('queue_drain')
 
         def api_attr(role, method):
             m = P.lookup_method(S, method)
@@ -59,6 +77,13 @@ class Roles(object):
             raise AnalysisError('role connected: isNodeConnected does not test a single attribute')
         self.resolved['connected'] = self.connected
 
+
+    def _seg1(self, P, S):
+        init = self.__dict__.get('init')
+        sn = init.self_name if init is not None else None
+        tick = self.__dict__.get('tick')
+        h = self.__dict__.get('handler')
+        qd = self.__dict__.get('queue_drain')
         # raftState / LEADER from _isLeader: return self.S == K
         m = P.lookup_method(S, '_isLeader')
         e = _single_return_expr(m) if m else None
@@ -98,6 +123,13 @@ class Roles(object):
         self.serializer = ctor_attr('serializer', ('Serializer',))
         self.transport = ctor_attr('transport', ('transportClass',))
 
+
+    def _seg2(self, P, S):
+        init = self.__dict__.get('init')
+        sn = init.self_name if init is not None else None
+        tick = self.__dict__.get('tick')
+        h = self.__dict__.get('handler')
+        qd = self.__dict__.get('queue_drain')
         # handler / connection callbacks: methods registered on the transport
         self.handler = None
         self.slot_methods = {}
@@ -116,6 +148,13 @@ class Roles(object):
             raise AnalysisError('role handler: no method registered with transport.setOnMessageReceivedCallback')
         self.resolved['handler'] = self.handler.qualname
 
+
+    def _seg3(self, P, S):
+        init = self.__dict__.get('init')
+        sn = init.self_name if init is not None else None
+        tick = self.__dict__.get('tick')
+        h = self.__dict__.get('handler')
+        qd = self.__dict__.get('queue_drain')
         # tick: the method doTick delegates to
         dt = P.lookup_method(S, 'doTick')
         self.tick = None
@@ -128,6 +167,13 @@ class Roles(object):
             raise AnalysisError('role tick: doTick does not delegate to a method')
         self.resolved['tick'] = self.tick.qualname
 
+
+    def _seg4(self, P, S):
+        init = self.__dict__.get('init')
+        sn = init.self_name if init is not None else None
+        tick = self.__dict__.get('tick')
+        h = self.__dict__.get('handler')
+        qd = self.__dict__.get('queue_drain')
         # dispatcher / apply step
         self.dispatcher = None
         self.idToMethod = None
@@ -154,6 +200,13 @@ class Roles(object):
             raise AnalysisError('role apply step: the dispatcher is not called from a loop')
         self.resolved['apply_step'] = self.apply_step.qualname
 
+
+    def _seg5(self, P, S):
+        init = self.__dict__.get('init')
+        sn = init.self_name if init is not None else None
+        tick = self.__dict__.get('tick')
+        h = self.__dict__.get('handler')
+        qd = self.__dict__.get('queue_drain')
         # matchIndex / nextIndex from getStatus keys
         gs = P.lookup_method(S, 'getStatus')
         self.matchIndex = self.nextIndex = None
@@ -172,31 +225,54 @@ class Roles(object):
         self.resolved['matchIndex'] = self.matchIndex
         self.resolved['nextIndex'] = self.nextIndex
 
+
+    def _seg6(self, P, S):
+        init = self.__dict__.get('init')
+        sn = init.self_name if init is not None else None
+        tick = self.__dict__.get('tick')
+        h = self.__dict__.get('handler')
+        qd = self.__dict__.get('queue_drain')
         # lastResponseTime: attribute subscripted and compared against a local derived from conf.leaderFallbackTimeout
         self.lastResponseTime = None
         tick = self.tick
-        tainted = set()
-        for n in ast.walk(tick.node):
-            if isinstance(n, ast.Assign) and any(isinstance(x, ast.Attribute) and x.attr == 'leaderFallbackTimeout' for x in ast.walk(n.value)):
-                for t in n.targets:
-                    if isinstance(t, ast.Name):
-                        tainted.add(t.id)
-        for n in ast.walk(tick.node):
-            if isinstance(n, ast.Compare) and len(n.ops) == 1:
-                sides = [n.left, n.comparators[0]]
-                for i in (0, 1):
-                    other = sides[1 - i]
-                    uses = any((isinstance(x, ast.Name) and x.id in tainted) or
-                               (isinstance(x, ast.Attribute) and x.attr == 'leaderFallbackTimeout') for x in ast.walk(other))
-                    if uses and isinstance(sides[i], ast.Subscript):
-                        a = P.self_attr(sides[i].value, tick.self_name)
-                        if a:
-                            self.lastResponseTime = a
-                            self.fallback_compare = n
+        for fm in P.methods_of(S):
+            tainted = set()
+            for n in ast.walk(fm.node):
+                if isinstance(n, ast.Assign) and any(isinstance(x, ast.Attribute) and x.attr == 'leaderFallbackTimeout' for x in ast.walk(n.value)):
+                    for t in n.targets:
+                        if isinstance(t, ast.Name):
+                            tainted.add(t.id)
+            for n in ast.walk(fm.node):
+                if isinstance(n, ast.Compare) and len(n.ops) == 1:
+                    sides = [n.left, n.comparators[0]]
+                    for i in (0, 1):
+                        other = sides[1 - i]
+                        uses = any((isinstance(x, ast.Name) and x.id in tainted) or
+                                   (isinstance(x, ast.Attribute) and x.attr == 'leaderFallbackTimeout') for x in ast.walk(other))
+                        if uses and isinstance(sides[i], ast.Subscript):
+                            a = P.self_attr(sides[i].value, fm.self_name)
+                            if a:
+                                self.lastResponseTime = a
+                                self.fallback_compare = n
+                                self.fallback_func = fm
+        # primary anchor: the per-node table the message handler stamps with the current time
+        hh = self.__dict__.get('handler')
+        if hh is not None:
+            for acc in P.accesses(hh):
+                if acc.kind == 'elem_write' and isinstance(acc.node, ast.Assign) and isinstance(acc.node.value, ast.Call) \
+                        and isinstance(acc.node.value.func, ast.Name) and 'onotonic' in acc.node.value.func.id:
+                    self.lastResponseTime = acc.attr
         if self.lastResponseTime is None:
-            raise AnalysisError('role lastResponseTime: no comparison against conf.leaderFallbackTimeout in the tick')
+            raise AnalysisError('role lastResponseTime: no comparison against conf.leaderFallbackTimeout in SyncObj')
         self.resolved['lastResponseTime'] = self.lastResponseTime
 
+
+    def _seg7(self, P, S):
+        init = self.__dict__.get('init')
+        sn = init.self_name if init is not None else None
+        tick = self.__dict__.get('tick')
+        h = self.__dict__.get('handler')
+        qd = self.__dict__.get('queue_drain')
         # waitingCommit / waitingReply: tables the dequeued callback is stored into
         self.queue_drain = None
         for f in P.methods_of(S):
@@ -224,6 +300,13 @@ class Roles(object):
         self.resolved['waitingCommit'] = self.waitingCommit
         self.resolved['waitingReply'] = self.waitingReply
 
+
+    def _seg8(self, P, S):
+        init = self.__dict__.get('init')
+        sn = init.self_name if init is not None else None
+        tick = self.__dict__.get('tick')
+        h = self.__dict__.get('handler')
+        qd = self.__dict__.get('queue_drain')
         # votedFor / electionDeadline from the request_vote region of the handler
         self.votedFor = None
         h = self.handler
@@ -256,6 +339,13 @@ class Roles(object):
             raise AnalysisError('role electionDeadline: no deadline attribute compared with the clock in the tick')
         self.resolved['electionDeadline'] = self.electionDeadline
 
+
+    def _seg9(self, P, S):
+        init = self.__dict__.get('init')
+        sn = init.self_name if init is not None else None
+        tick = self.__dict__.get('tick')
+        h = self.__dict__.get('handler')
+        qd = self.__dict__.get('queue_drain')
         # become-leader: callee of the handler/tick that calls the state setter with LEADER
         self.setState = None
         self.becomeLeader = None
@@ -266,6 +356,14 @@ class Roles(object):
                     self.setState = f
         if self.setState is not None:
             self.resolved['setState'] = self.setState.qualname
+
+
+
+    def __getattr__(self, name):
+        # only called for attributes that were never set: the segment resolving this role failed
+        if name.startswith('__') and name.endswith('__'):
+            raise AttributeError(name)
+        raise AnalysisError('role `%s` could not be resolved: %s' % (name, '; '.join(self.__dict__.get('errors', [])) or 'not defined'))
 
     # ------------------------------------------------------------------ helpers
     def is_state_const(self, node, name):
